@@ -114,10 +114,16 @@ def run_bn(cfg, hist):
             elif e == "E": L.eval(); R.eval()
             else:
                 xb = batches[e].astype(dt)
-                xt = sg.Tensor(xb.copy(), requires_grad=True)
-                y = L(xt)
+                # A: input requires grad; B: plain input (with affine=False the output is untracked); C: forward under no_grad -
+                # what a training forward does to the running statistics does not depend on whether a graph is recorded
+                xt = sg.Tensor(xb.copy(), requires_grad=(e != "B"))
+                if e == "C":
+                    with sg.no_grad(): y = L(xt)
+                else:
+                    y = L(xt)
                 use_running = (not L.training) and cfg["track"]
-                pending.append((xt, y, xb, use_running, None if not use_running else np.asarray(L.running_var.data, dtype=np.float64).copy(), prefix))
+                if y.requires_grad:
+                    pending.append((xt, y, xb, use_running, None if not use_running else np.asarray(L.running_var.data, dtype=np.float64).copy(), prefix))
                 if y.dtype != dt: v("batchnorm:output-dtype", f"cfg {cfg} after {prefix}: {dt} input gives {y.dtype} output")
                 with t.no_grad():
                     yr = R(t.from_numpy(xb.copy())).numpy()
@@ -170,6 +176,8 @@ def run_bn(cfg, hist):
             b = t.tensor([0.25, 2.0], dtype=t.float64) if cfg["affine"] else None
             TF.batch_norm(xr, None, None, w, b, training=True, eps=cfg["eps"]).backward(t.from_numpy(g.astype(np.float64)))
             exp = xr.grad.numpy()
+        if not xt.requires_grad:
+            continue
         got = np.asarray(xt.grad.data, dtype=np.float64)
         tol = (1e-8, 1e-9) if dt == np.float64 else (2e-4, 2e-5)
         if got.shape != exp.shape or not np.allclose(got, exp, rtol=tol[0], atol=tol[1]):
@@ -220,7 +228,7 @@ def run(tier, seed):
            "rule": f"Dropout p in {{0,.3,.5,1}} x ALL {11 ** dd} histories of length {dd} over {{train, eval, forward with each of the 8 "
                    f"keep/drop answer vectors, forward at the boundary u=p}}; BatchNorm: {len(cfgs)} configurations (momentum {{.1,.5,1,0,None}} x "
                    f"affine x track_running_stats x input rank 2/3/4) x ALL {4 ** bd} histories of length {bd} over {{train, eval, forward(A: 2 "
-                   "samples), forward(B: 3 samples), for rank >= 3 also forward(C: 1 sample) with histories one shorter}} in lock-step with torch.nn.BatchNorm1d/2d (float64; float32 layers one level shallower, "
+                   "samples, input requires grad), forward(B: 3 samples, plain input), for rank >= 3 also forward(C: 1 sample, under no_grad) with histories one shorter}} in lock-step with torch.nn.BatchNorm1d/2d (float64; float32 layers one level shallower, "
                    "incl. dtype of outputs and buffers): output, running_mean, "
                    "running_var, num_batches_tracked after every event; after the history every forward is back-propagated (delayed backward) "
                    "and its input gradient compared with the closed form / torch autograd; states = (configuration, history prefix) pairs"}
